@@ -9,3 +9,18 @@ Print Assumptions C18_source_clean_subject.
 Theorem C18_source_v1_clean_subject : forall s : string, V1.cleanSubject s = clean_subject s.
 Proof. exact src_v1_clean_subject. Qed.
 Print Assumptions C18_source_v1_clean_subject.
+
+(* ActivationClaims.HashID itself, of both libraries: refused exactly when issuer, subject or granted subject is
+   missing; otherwise the base32 text of what a freshly made hash object, written the text issuer.subject.cleaned
+   once, sums to - the model's [hash_id] with that composite as its hash function.  The hash object is an opaque
+   value: sha256.New, its Write and its Sum are unknown functions, so the theorem holds whatever they are. *)
+Theorem C18_source_hash_id : forall (V : Type) (vnil : V) (b32 : string -> string) (hnew : V) (hsum : V -> string -> string) (hwrite : V -> string -> V)
+    (iss sub imp : string),
+  V2.ActivationClaims_HashID V vnil imp iss sub b32 hnew hsum hwrite = hash_result (hash_id (hash_of b32 hnew hsum hwrite) iss sub imp).
+Proof. intros V vnil b32 hnew hsum hwrite. exact (src_hash_id vnil b32 hnew hsum hwrite). Qed.
+Print Assumptions C18_source_hash_id.
+Theorem C18_source_v1_hash_id : forall (V : Type) (vnil : V) (b32 : string -> string) (hnew : V) (hsum : V -> string -> string) (hwrite : V -> string -> V)
+    (iss sub imp : string),
+  V1.ActivationClaims_HashID V vnil imp iss sub b32 hnew hsum hwrite = hash_result (hash_id (hash_of b32 hnew hsum hwrite) iss sub imp).
+Proof. intros V vnil b32 hnew hsum hwrite. exact (src_v1_hash_id vnil b32 hnew hsum hwrite). Qed.
+Print Assumptions C18_source_v1_hash_id.
